@@ -169,7 +169,7 @@ func runC13(r *RunCtx) error {
 		if k%4 == 1 {
 			nblocks = 16 + p.Intn(10)
 		}
-		if params.TokensPerBlock > 1_000_000_000_000_000 { // keep the total supply inside int64 (the observations are int64)
+		if params.TokensPerBlock > 1_000_000_000_000_000 || (prevEm != nil && *prevEm > 1_000_000_000_000_000) { // keep the total supply inside int64 (the observations are int64)
 			nblocks = 1 + p.Intn(4)
 			if k%4 == 1 {
 				params.TokensPerBlock = 4_200_000
